@@ -113,3 +113,13 @@ Proof. vm_compute. reflexivity. Qed.
 (* a ZCML-style `info` on the configurator overrides the stack *)
 Example zcml_info_wins : action_info_of (Some 3%N) [15%N] = 3%N.
 Proof. reflexivity. Qed.
+
+(* why a forwarding method that is not an action method is a defect while a class-level alias is not: the directive sees
+   the frame that calls it -- through an alias that is the statement (site_top), through a forwarder it is the
+   forwarder's own frame (site_body here), and that is what every entry of the statement then carries *)
+Example alias_records_the_statement :
+  run_call None [] site_top (Call None (IProbe INil) false) = ([], ([site_top], false)).
+Proof. reflexivity. Qed.
+Example forwarder_records_its_own_frame :
+  run_call None [] site_body (Call None (IProbe INil) false) = ([], ([site_body], false)).
+Proof. reflexivity. Qed.
